@@ -8,6 +8,20 @@
 # rule: how cases are generated and what makes one non-trivial / distinct (copied into evidence)
 
 PROPS = {
+    "C08": {
+        "level": "exploration",
+        "rule": "rapid generates identity version histories of 1..5 versions over a pool of deterministic OpenPGP keys (add / remove / "
+                "rotate, bugs-edit clock advanced by generated amounts between versions, optionally created before any bug clock "
+                "exists) through the real identity API, crossed with a bug commit at a generated logical edit time in six variants: "
+                "signed by a key in force, by a removed key, by a not-yet-valid key, by a stranger's key, unsigned, signed then "
+                "altered (tree replaced while keeping the signature, written with go-git plumbing). Oracle: reference keysInForce(T) "
+                "= keys of the last version whose bugs-edit time <= T (a version without that clock inherits the previous time); "
+                "accept iff no key in force or a valid signature by one of them over the exact content; bug.Read (author resolved "
+                "from git, i.e. public keys only) and MergeAll must both agree, with an error and never a panic on rejection. "
+                "Non-trivial: a key is in force and the variant is not 'right key'. Distinct: key-count pattern x key-in-force x variant x clock-at-first.",
+        "assumptions": ["go-git stores/returns the signed bytes faithfully (the mock backend only signs the tree hash and is not used)"],
+        "tests": [{"name": "TestC08Signatures", "quick": 500, "shards_quick": 2, "thorough": 3000, "shards": 16}],
+    },
     "C09": {
         "level": "exploration",
         "rule": "TestC09Identities: two go-git replicas and a bare remote share 1..3 identities created by the real API; rapid "
@@ -175,6 +189,13 @@ PROPS = {
 
 # Text for MANIFEST.json, per claimed property.
 MANIFEST_TEXT = {
+    "C08": {
+        "technique": "property-based testing (rapid): generated key histories x commit variants vs a reference key-validity function",
+        "level_text": "Generated identity/key histories and signed, unsigned, foreign-signed and altered commits are judged by the real reader "
+                      "and by a reference function written from the statement; both the local read and the merge path are compared.",
+        "design_ref": "DESIGN.md §4 C08",
+        "level_note": "Trusted: ProtonMail/go-crypto for signing in the harness; go-git plumbing for the altered-commit variant.",
+    },
     "C09": {
         "technique": "stateful property-based testing (rapid) of mutate/push/pull identity histories vs a model of version-id chains; crafted hostile chains vs the stated rejection rules",
         "level_text": "Model-based: the expected merge verdict is computed from the prefix relation of independently read version chains for "
